@@ -54,9 +54,10 @@ let parse_reqs (s : string) : creq list =
 let parse_scens (s : string) : cscen list =
   List.map (fun p ->
       match String.split_on_char ',' p with
-      | [name; w; shoots] ->
+      | name :: w :: shoots :: rest ->
           { sc_name = bs name; sc_weight = (if w = "-" then z_of_int 0 else z_of_string w);
-            sc_shoots = List.map bytes_of_hex (split_on ':' shoots) }
+            sc_shoots = List.map bytes_of_hex (split_on ':' shoots);
+            sc_minwait = (match rest with [m] -> z_of_string m | _ -> z_of_int 0) }
       | _ -> failwith "scen") (split_on ';' s)
 
 let resp_for (k : int) (act : string) : cresp option =
@@ -104,8 +105,8 @@ let print_reqmap (m : n list reqmap) : string =
 
 let join sep l = if l = [] then "-" else String.concat sep l
 
-let print_expansion (steps : (creq * z) list) : string =
-  join "." (List.map (fun (r, ms) -> string_of_n r.cq_id ^ "/" ^ string_of_z ms) steps)
+let print_expansion (steps : (creq * z) list) (minw : z) : string =
+  join "." (List.map (fun (r, ms) -> string_of_n r.cq_id ^ "/" ^ string_of_z ms) steps) ^ "@" ^ string_of_z minw
 
 let print_send (r : crend) : string =
   let rf = match r.rd_ref with
@@ -126,7 +127,8 @@ let print_shot (scens : cscen list) (exps : (creq * z) list list) (sr : shot_res
   let si = int_of_nat sr.sr_scen in
   let sname = string_of_bytes (List.nth scens si).sc_name in
   let sends = List.concat_map (function EvSend (_, r) -> [ print_send r ] | _ -> []) sr.sr_events in
-  Printf.sprintf "[%s exp=%s sends=%s samples=%s pause=1]" sname (print_expansion (List.nth exps si))
+  Printf.sprintf "[%s exp=%s sends=%s samples=%s pause=1 minw=1]" sname
+    (print_expansion (List.nth exps si) (ammo_minwait scens sr.sr_scen))
     (join "," sends) (join "," (sample_strs sname sr.sr_events))
 
 (* specification side: scenario from spec_ring, expansion from spec_expand, and the variables
@@ -139,11 +141,11 @@ let spec_vars (names : n list list) (evs : cevent list) (j : nat) : n list reqma
     | [] -> [] in
   find evs
 
-let print_shot_spec (names : n list list) (sname : string) (steps : (creq * z) list) (sr : shot_res) : string =
+let print_shot_spec (names : n list list) (sname : string) (minw : z) (steps : (creq * z) list) (sr : shot_res) : string =
   let sends = List.concat_map (function
       | EvSend (j, r) -> [ print_send { r with rd_vars = spec_vars names sr.sr_events j } ]
       | _ -> []) sr.sr_events in
-  Printf.sprintf "[%s exp=%s sends=%s samples=%s pause=1]" sname (print_expansion steps)
+  Printf.sprintf "[%s exp=%s sends=%s samples=%s pause=1 minw=1]" sname (print_expansion steps minw)
     (join "," sends) (join "," (sample_strs sname sr.sr_events))
 
 let rec uniq = function [] -> [] | x :: r -> x :: uniq (List.filter (fun y -> y <> x) r)
@@ -162,8 +164,10 @@ let obs_shot_ok (sname : string) (steps : (creq * z) list) (chunk : string) : st
   let get k = List.fold_left (fun acc f ->
       let kl = String.length k in
       if String.length f > kl && String.sub f 0 (kl + 1) = k ^ "=" then Some (String.sub f (kl + 1) (String.length f - kl - 1)) else acc) None fields in
-  match get "sends", get "samples", get "pause" with
-  | Some sends, Some samples, Some "1" ->
+  match get "sends", get "samples", get "pause", get "minw" with
+  | Some _, Some _, Some "1", Some "0" ->
+      "min_waiting_time: a shot whose steps all succeeded ended before the scenario's min_waiting_time (or far too late)"
+  | Some sends, Some samples, Some "1", _ ->
       let ids = List.map (fun e -> n_of_string (List.hd (String.split_on_char '/' e))) (split_on ',' sends) in
       let pre = sname ^ "." in
       let smp = List.map (fun e ->
@@ -181,7 +185,7 @@ let obs_shot_ok (sname : string) (steps : (creq * z) list) (chunk : string) : st
           | _ -> (bs "?", false)) (split_on ',' samples) in
       if order_stop_b (c_step_obs steps) ids smp then ""
       else "order/stop: samples and requests are not one per step up to the first failing step"
-  | Some _, Some _, Some _ -> "pause: the next request (or the end of the shot) came sooner than the pause written for the step"
+  | Some _, Some _, Some _, _ -> "pause: the next request (or the end of the shot) came sooner than the pause written for the step"
   | _ -> "shot did not complete (panic or hang)"
 
 let split_shots (obs : string) : string list =
@@ -268,7 +272,7 @@ let predict (c : string) (obs : string) : string * string * bool =
              let seen = ref [] in
              List.iter (fun i -> if not (List.mem i !seen) then seen := !seen @ [ i ]) ring_idx;
              Printf.sprintf "ok ring=%s exp=%s" (String.concat "," (List.map nm ring_idx))
-               (String.concat ";" (List.map (fun i -> nm i ^ ":" ^ print_expansion (exp_of i)) !seen)) in
+               (String.concat ";" (List.map (fun i -> nm i ^ ":" ^ print_expansion (exp_of i) (List.nth sc i).sc_minwait) !seen)) in
            let idx = List.filter_map (fun k -> match deliver ring (nat_of_int k) with
                | Some i -> Some (int_of_nat i) | None -> None) (seq 0 nacq) in
            let p = render idx (fun i -> List.nth exps i) in
@@ -300,13 +304,13 @@ let predict (c : string) (obs : string) : string * string * bool =
                    | Some sr -> int_of_nat (List.nth sr (k mod List.length sr))
                    | None -> int_of_nat r.sr_scen) in
                let steps = (match List.nth sexps si with Some e -> e | None -> List.nth exps si) in
-               (string_of_bytes (List.nth sc si).sc_name, steps) in
+               (string_of_bytes (List.nth sc si).sc_name, (List.nth sc si).sc_minwait, steps) in
              let specs = List.mapi spec_of rs in
-             let w = "ok " ^ String.concat " " (List.map2 (fun (sname, steps) r -> print_shot_spec names sname steps r) specs rs) in
+             let w = "ok " ^ String.concat " " (List.map2 (fun (sname, minw, steps) r -> print_shot_spec names sname minw steps r) specs rs) in
              let chunks = split_shots obs in
              let structural =
                if List.length chunks <> List.length rs then "number of shots differs"
-               else List.fold_left2 (fun acc (sname, steps) c -> if acc <> "" then acc else obs_shot_ok sname steps c) "" specs chunks in
+               else List.fold_left2 (fun acc (sname, _, steps) c -> if acc <> "" then acc else obs_shot_ok sname steps c) "" specs chunks in
              let failed = List.exists (fun r -> r.sr_out <> Done) rs in
              let nsamples c = (try
                  let i = Str.search_forward (Str.regexp "samples=\\([^ ]*\\)") c 0 in
